@@ -117,6 +117,9 @@ def build_payload(case_rng, par):
         g = ginfo["guard_plain"]
         gb = half + P.rx1(bytes(x ^ y for x, y in zip(g, half[::-1][:2048])), 0x8A)
     pre = P.filler(rng, par["pre"])
+    if par["keykind"].startswith("straddle:"):
+        _, j, k1 = par["keykind"].split(":")
+        pre = pre + bytes(h ^ int(k1) for h in b"\x00\x01\x00\x01\x00\x02\x00"[: int(j)])  # the part of the look-alike in front of the area
     if par.get("decoy"):
         # an earlier guard-config candidate that cannot be unmasked: an accidental marker match, or a damaged copy of the area
         if par["decoy"] == "marker":
@@ -187,7 +190,7 @@ def check_case(case, ctx):
         g = c.guardrails
         if g is None:
             key = None
-            if (par["keykind"] in ("lead7", "constant", "headerlike") or par.get("guardlook")) and not key_is_top_ngram(ginfo["padded"], par["envkey"]):
+            if (par["keykind"] in ("lead7", "constant", "headerlike") or par["keykind"].startswith("straddle") or par.get("guardlook")) and not key_is_top_ngram(ginfo["padded"], par["envkey"]):
                 key = "guardrails-key-frequency-heuristic"  # the Guardrails route cannot find the key, the look-alike block is what is left
             ctx.violation("recover.exact", "configuration returned without guardrails metadata (found by another route?)", case, key=key)
             return
@@ -215,8 +218,8 @@ def check_case(case, ctx):
         want_gs = [(o, OPTS[o][1], par["optvals"][str(o)]) for o in par["opts"]] + [(9, 2, struct.pack(">I", ginfo["stored"]))]
         if gs != want_gs:
             problems.append(f"guard settings {gs} != {want_gs}")
-        if c.xorkey != b"\x2e" or c.xorencoded is not False and not par["xorenc"]:
-            problems.append(f"xorkey/xorencoded {c.xorkey!r}/{c.xorencoded}")
+        if c.xorkey != b"\x2e" or c.xorencoded is not bool(par["xorenc"]):
+            problems.append(f"xorkey/xorencoded {c.xorkey!r}/{c.xorencoded}, the payload is {'' if par['xorenc'] else 'not '}XorEncoded")
         if problems:
             ctx.violation("recover.exact", "; ".join(problems), case)
             return
@@ -246,13 +249,23 @@ def check_case(case, ctx):
             return
     ctx.ok(fp=payload, case={"par": {k: v for k, v in par.items()}, "payload_len": len(payload)}, classes=(
         f"neg:{neg}", f"keylen:{'2-8' if len(par['envkey']) <= 8 else '9-64' if len(par['envkey']) <= 64 else '65-256'}",
-        f"opts:{'+'.join(map(str, par['opts']))}", f"container:{par['container']}", f"xorenc:{par['xorenc']}", f"keykind:{par['keykind']}", f"decoy:{par.get('decoy')}",
+        f"opts:{'+'.join(map(str, par['opts']))}", f"container:{par['container']}", f"xorenc:{par['xorenc']}", f"keykind:{par['keykind'].split(':')[0]}", f"decoy:{par.get('decoy')}",
         "bulk:none" if not par.get("bulk") else f"bulk:{'random' if par['bulk']['byte'] is None else 'run'}", f"guardlook:{bool(par.get('guardlook'))}",
         f"seam@block-boundary:{(base + 6138) % 8192 > 8180 or (base + 6138) % 8192 == 0}"))
 
 
 def gen_key(rng, length):
-    kind = rng.choice(["ascii", "random", "random", "periodic", "lead7", "constant", "headerlike", "nearperiodic"])
+    kind = rng.choice(["ascii", "random", "random", "periodic", "lead7", "constant", "headerlike", "nearperiodic", "straddle"])
+    if kind == "straddle" and length >= 6:
+        # the first bytes of the masked area continue 1..6 bytes in front of it to a configuration header under a default
+        # single-byte key (the configuration itself starts 00 01 00 01 00 02): key[i] = hdr[i] ^ hdr[j + i] ^ 0x2e ^ k
+        hdr = b"\x00\x01\x00\x01\x00\x02\x00"
+        j = rng.randrange(1, 7)
+        k1 = rng.choice([0x69, 0x2E, 0x00])
+        kb = bytearray(rng.randrange(1, 256) for _ in range(length))
+        for i in range(min(7 - j, length, 6)):
+            kb[i] = hdr[i] ^ hdr[j + i] ^ 0x2E ^ k1
+        return bytes(kb), f"straddle:{j}:{k1}"
     if kind == "headerlike" and length >= 8:
         # the key contains (configuration header ^ 0x2e ^ k) for a default single-byte key k: wherever the configuration is
         # NUL (its padding), the masked area then reads like the start of a configuration block under k
@@ -299,7 +312,7 @@ def gen_par(rng, keylen, neg=None):
 
     optvals = {"5": hv(), "6": hv(), "7": hv(), "8": rng.choice([rng.randbytes(4), b"\x0a\x00\x00\x05", b"\xc0\xa8\x01\x00", rng.randbytes(2) + b"\x00\x00"])}
     envkey, kind = gen_key(rng, keylen)
-    while neg is not None and kind in ("lead7", "constant", "headerlike"):
+    while neg is not None and (kind in ("lead7", "constant", "headerlike") or kind.startswith("straddle")):
         # when the Guardrails route cannot unmask such an area (negative cases), bytes of it ARE a block that starts with the
         # configuration header under a default single-byte key: the ordinary extraction (C01) returns that block, which is
         # what it must do for a plain block followed by bytes that merely resemble a guard configuration
@@ -317,7 +330,7 @@ def gen_par(rng, keylen, neg=None):
     # positions at which the 12 bytes of the seam between configuration and guard configuration straddle a read-block boundary
     if rng.random() < 0.15:
         par["pre"] = rng.choice([8192, 16384]) - 6138 - rng.randrange(0, 13) + (0 if par["container"] == "raw" else rng.randrange(0, 13))
-    if par["decoy"] == "copy" and kind in ("lead7", "constant", "headerlike"):
+    if par["decoy"] == "copy" and (kind in ("lead7", "constant", "headerlike") or kind.startswith("straddle")):
         par["decoy"] = "marker"  # a damaged copy of such an area is a negative case of its own, see above
     if neg is None and rng.random() < 0.2:
         par["bulk"] = {"padding": rng.choice([0, 2, keylen, 2 * keylen - 1, 2 * keylen + 1, 3 * keylen, 600, rng.randrange(0, 1200)]),
@@ -336,7 +349,7 @@ def gen_par(rng, keylen, neg=None):
         par["xor"] = rng.randrange(1, 256)
     elif neg == "two-keys":
         k2, kind2 = gen_key(rng, keylen)
-        while stream_equiv(k2, envkey) or kind2 in ("lead7", "constant", "headerlike"):
+        while stream_equiv(k2, envkey) or kind2 in ("lead7", "constant", "headerlike") or kind2.startswith("straddle"):
             k2, kind2 = gen_key(rng, keylen)  # (the second key masks the padding: same exclusion as for the first, see above)
         par["envkey2"] = k2
     return par
